@@ -17,6 +17,12 @@ def edit_blocks(rng, blocks, c06):
     """blocks (string spec) -> an edited copy that keeps the relative order of what is retained and appends what is
     new at the end (so that an object morphed in place and a fresh object have the same key order)."""
     b2 = copy.deepcopy(blocks)
+    # a name that was dropped must not come back as "new" (it would keep its old position in the edited object)
+    ever = {"": [bn for bn, _ in blocks]}
+    for bn, cats in blocks:
+        ever[bn] = [cn for cn, _ in cats]
+        for cn, cols in cats:
+            ever[bn + "\0" + cn] = [k for k, _ in cols]
 
     def newcol(r, used):
         return (c06.name(rng, used), [c06.render_cell(c06.cell_of(c06.simple_value(rng))) for _ in range(r)])
@@ -35,7 +41,7 @@ def edit_blocks(rng, blocks, c06):
         elif x < 0.55 and cat and len(cat[1]) > 1:            # drop a column
             del cat[1][rng.randrange(len(cat[1]))]
         elif x < 0.65 and cat:                                # add a column
-            cat[1].append(newcol(len(cat[1][0][1]), [k for k, _ in cat[1]]))
+            cat[1].append(newcol(len(cat[1][0][1]), [k for k, _ in cat[1]] + ever.get(blk[0] + "\0" + cat[0], [])))
         elif x < 0.72 and len(cats) > 1:                      # drop a category
             del cats[rng.randrange(len(cats))]
         elif x < 0.85:                                        # add a category
@@ -43,11 +49,11 @@ def edit_blocks(rng, blocks, c06):
             cols = []
             for _ in range(rng.randint(1, 3)):
                 cols.append(newcol(r, [k for k, _ in cols]))
-            cats.append((c06.name(rng, [n for n, _ in cats]), cols))
+            cats.append((c06.name(rng, [n for n, _ in cats] + ever.get(blk[0], [])), cols))
         elif x < 0.92 and len(b2) > 1:                        # drop a block
             del b2[rng.randrange(len(b2))]
         else:                                                 # add a block
-            b2.append((c06.name(rng, [n for n, _ in b2]), [(c06.name(rng), [newcol(rng.choice([1, 2]), [])])]))
+            b2.append((c06.name(rng, [n for n, _ in b2] + ever[""]), [(c06.name(rng), [newcol(rng.choice([1, 2]), [])])]))
     return b2
 
 
@@ -276,6 +282,14 @@ def _api_views(rng, flav, blocks, c06):
             for cn in f[bn]:
                 if str(f[bn][cn]) != f[bn][cn].serialize():
                     return "str(category) differs from category.serialize()"
+    import biotite.structure.io.pdbx as _p
+    chain = ([_p.CIFFile, _p.CIFBlock, _p.CIFCategory, _p.CIFColumn, _p.CIFData] if flav == "t" else
+             [_p.BinaryCIFFile, _p.BinaryCIFBlock, _p.BinaryCIFCategory, _p.BinaryCIFColumn, _p.BinaryCIFData])
+    for i, cls in enumerate(chain):
+        if cls.subcomponent_class() is not (chain[i + 1] if i + 1 < len(chain) else None):
+            return f"{cls.__name__}.subcomponent_class()"
+        if cls.supercomponent_class() is not (chain[i - 1] if i > 0 else None):
+            return f"{cls.__name__}.supercomponent_class()"
     if len(blocks) == 1:
         if f.block is not f[blocks[0][0]]:
             return "file.block is not the only block"
@@ -406,6 +420,22 @@ def _api_defaults(rng, flav, blocks, c06):
         c = cls()
         if len(c) != 0:
             return f"a new {cls.__name__}() is not empty after another one was filled"
+    if flav == "b":
+        # an explicit row_count competes with the length of the columns: the right one is written, a wrong one refused
+        cols = blocks[0][1][0][1]
+        n = len(cols[0][1])
+        import numpy as np
+        good = pdbx.BinaryCIFCategory({k: np.array(list(vs)) for k, vs in cols}, row_count=n)
+        if good.serialize()["rowCount"] != n or good.row_count != n:
+            return "BinaryCIFCategory(row_count=n) does not write n"
+        bad = pdbx.BinaryCIFCategory({k: np.array(list(vs)) for k, vs in cols}, row_count=n + 1)
+        try:
+            ser = bad.serialize()
+            if ser["rowCount"] != n:
+                return f"BinaryCIFCategory(row_count={n + 1}) over columns of length {n} wrote rowCount {ser['rowCount']}"
+        except Exception as e:  # noqa: BLE001
+            if type(e).__name__ != "SerializationError":
+                return f"wrong explicit row_count: {type(e).__name__}"
     return None
 
 
